@@ -98,6 +98,13 @@ func c01Mutations(m *vMsg) []c01Mut {
 			if c01V6Only(n.T) != nil {
 				out = append(out, c01Mut{Path: p, Op: "v6only"})
 			}
+			if n.T == ie.NodeID {
+				// legal and odd Node IDs: FQDN, FQDN whose labels are not valid UTF-8, IPv6, unknown type, FQDN with a label
+				// length running past the end
+				for _, k := range []string{"fqdn", "fqdn-bad-utf8", "ipv6", "type7", "fqdn-overrun", "fqdn-empty"} {
+					out = append(out, c01Mut{Path: p, Op: "nodeid", Arg: k})
+				}
+			}
 			if n.T == ie.SDFFilter || n.T == ie.PFDContents {
 				for k := range c01FlowVariants("permit out udp from 10.1.0.0/16 80 to assigned 1000-2000") {
 					out = append(out, c01Mut{Path: p, Op: "flow", Arg: fmt.Sprint(k)})
@@ -184,6 +191,16 @@ func c01Apply(base *vMsg, mu c01Mut) []byte {
 		}
 	case "v6only":
 		(*list)[i] = c01V6Only(n.T)
+	case "nodeid":
+		pl := map[string][]byte{
+			"fqdn":          append([]byte{0x02, 0x03}, []byte("smf\x07example\x03org")...),
+			"fqdn-bad-utf8": {0x02, 0x03, 0xff, 0xfe, 0xfd, 0x02, 0xc0, 0xaf},
+			"ipv6":          append([]byte{0x01}, net.ParseIP("2001:db8::1").To16()...),
+			"type7":         {0x07, 1, 2, 3, 4},
+			"fqdn-overrun":  {0x02, 0x20, 'a', 'b'},
+			"fqdn-empty":    {0x02},
+		}[mu.Arg]
+		(*list)[i] = &vIE{T: ie.NodeID, P: pl}
 	case "flow":
 		var k int
 		fmt.Sscan(mu.Arg, &k)
